@@ -155,8 +155,10 @@ func (s *scope) isRedeclared(n *node) bool {
 
 func (s *scope) rangeChanType(n *node) *itype {
 	if sym, _, found := s.lookup(n.child[1].ident); found {
-		if t := sym.typ; len(n.child) == 3 && t != nil && (t.cat == chanT || t.cat == chanRecvT) {
-			return t
+		if t := sym.typ; len(n.child) == 3 && t != nil {
+			if t = t.resolveAlias(); t.cat == chanT || t.cat == chanRecvT {
+				return t
+			}
 		}
 	}
 
@@ -164,9 +166,10 @@ func (s *scope) rangeChanType(n *node) *itype {
 	if c.typ == nil {
 		return nil
 	}
-	switch {
-	case c.typ.cat == chanT, c.typ.cat == chanRecvT:
-		return c.typ
+	switch t := c.typ.resolveAlias(); {
+	case t.cat == chanT, t.cat == chanRecvT:
+		// Also a type defined from another defined channel type.
+		return t
 	case c.typ.cat == valueT && c.typ.rtype.Kind() == reflect.Chan:
 		dir := chanSendRecv
 		switch c.typ.rtype.ChanDir() {
